@@ -138,6 +138,17 @@ pub fn enumerate(tier: Tier) -> Vec<WitCase> {
         }
     }
 
+    // (1a) named handle types: an alias of `borrow<res>` (and an alias of that alias) used as a
+    // parameter next to the inline spelling
+    for t in TYPE_DECLS.iter().filter(|t| t.resource) {
+        let n = t.name;
+        let body = format!(
+            "interface i0 {{\n  {}\n  type h = borrow<{n}>;\n  type h2 = h;\n  f: func(a: h);\n  g: func(b: h2, c: borrow<{n}>) -> {n};\n  k: func(l: list<h>);\n}}\n\nworld wi {{ import i0; }}\nworld we {{ export i0; }}\n",
+            t.text
+        );
+        out.push(case(format!("handle-alias/{}", t.tag), Some("1.0.0"), body, &["i0"], &["wi", "we"], vec![t.tag.into(), "alias-of-borrow".into()]));
+    }
+
     // (1b) two independent declarations in one interface, a function over both
     for (i, t1) in TYPE_DECLS.iter().enumerate() {
         for (j, t2) in TYPE_DECLS.iter().enumerate() {
